@@ -308,6 +308,24 @@ func judge(class string, key []byte, o *fw.Obs) {
 		if !cmpNode(o, what, child, mchild) || !cmpNode(o, what+" via DeriveKeyFromPath", viaPath, mchild) {
 			return
 		}
+		// history: deriving further children from the same parent object (a sibling, and the same
+		// child again) must not change a result handed out earlier
+		var again *slip10.ExtendedKey
+		if !o.Try("DeriveChild (sibling)", func() {
+			_, _ = node.DeriveChild(idx ^ 1)
+			again, err = node.DeriveChild(idx)
+		}) {
+			return
+		}
+		if err != nil {
+			o.Fail("error", "%s: deriving the same child a second time failed: %v", what, err)
+			return
+		}
+		if !cmpNode(o, what+" (re-inspected after a sibling was derived from the same parent)", child, mchild) ||
+			!cmpNode(o, what+" (derived a second time)", again, mchild) {
+			return
+		}
+		o.Count("earlier result re-inspected after sibling derivation")
 		node, mnode = child, mchild
 	}
 }
@@ -408,6 +426,12 @@ func judgePublic(o *fw.Obs, cid byte, mp *slip10m.Params, node *slip10.ExtendedK
 	if !cmpNode(o, what, child, mchild) {
 		return false
 	}
+	if !o.Try("public DeriveChild (sibling)", func() { _, _ = pub.DeriveChild((idx ^ 1) &^ (1 << 31)) }) {
+		return false
+	}
+	if !cmpNode(o, what+" (re-inspected after a sibling was derived from the same public parent)", child, mchild) {
+		return false
+	}
 	o.Count("public child ok")
 	return true
 }
@@ -417,7 +441,7 @@ func judgePublic(o *fw.Obs, cid byte, mp *slip10m.Params, node *slip10.ExtendedK
 var idxPool = []uint32{0, 1, 2, 1<<31 - 1, 1 << 31, 1<<31 + 1, 1<<32 - 1, 44 + 1<<31, 1000000000}
 
 func gen(g *fw.Gen) {
-	for n := g.ShareOf(4800, 240000); n > 0; n-- {
+	for n := g.ShareOf(3200, 240000); n > 0; n-- {
 		cid := byte(g.Rng.Intn(nCurves))
 		var seed []byte
 		switch g.Rng.Intn(6) {
